@@ -14,7 +14,7 @@ EXTENDS Integers, Sequences, FiniteSets, TLC
 
 \* ---- parameter shapes (each is concretised by harness/src/bin/c15.rs: fn concretise)
 OpenOkArgs  == {"ok", "ok_sort", "ok_nocollect", "ok_onepass", "ok_plugins", "ok_zip", "ok_huge", "ok_huge_onepass",
-                "zip_glob_all", "zip_glob_some", "ok_plugins_dup"}      \* _dup: every plugin configured twice under the same name
+                "zip_glob_all", "zip_glob_some", "ok_plugins_dup", "ok_ft", "ok_ft_nosave", "ok_ft_auto"}      \* _dup: every plugin configured twice under the same name
 \* archive opens whose extraction (asynchronous, after the reply) finds nothing: inner glob without match, archive
 \* without DLT file, file named like an archive that is none.  The statement fixes no polarity for the open itself
 \* (today ok:, the code carries a todo to report an error) - but every later command must be answered.
@@ -30,7 +30,13 @@ ChangeBadArgs == {"noarg", "nocomma"}
 BsearchArgs   == {"time", "time_garbage", "index_found", "index_garbage", "index_missing", "badkey", "nokey", "noarg"}
 SearchOkArgs  == {"ok", "ok_defaults", "ok_nomatch"}
 SearchBadArgs == {"noarg", "badjson", "startwrongtype", "maxwrongtype", "filterswrongtype", "badfilter"}
-PluginArgs    == {"noarg", "badjson", "notobject", "nocmd", "noname", "noplugin", "ft_cmd", "rw_cmd"}   \* rw_cmd: a plugin without commands
+PluginArgs    == {"noarg", "badjson", "notobject", "nocmd", "noname", "noplugin", "ft_cmd", "rw_cmd",   \* rw_cmd: a plugin without commands
+                  "save_ok", "save_ok2", "save_incomplete", "save_badidx", "save_unwritable", "save_noparams", "save_noctx"}
+\* ok_ft..: a log with two complete and one incomplete file transfer, opened with the FileTransfer plugin (allowSave true / false /
+\* autoSavePath).  FileTransfer `save`: the reply is `ok: plugin_cmd <bool>`; true only for a complete, already parsed transfer
+\* (idx 0 and 2 of the log) with a writable target; the variants below can never succeed
+PluginCmdOkArgs == {"ft_cmd", "save_ok", "save_ok2", "save_incomplete", "save_badidx", "save_unwritable", "save_noparams", "save_noctx"}
+SaveNeverArgs == {"ft_cmd", "save_incomplete", "save_badidx", "save_unwritable", "save_noparams", "save_noctx"}
 FsOkArgs      == {"stat_ok", "readdir_ok", "zip_readdir", "zip_stat"}
 FsFakeArgs    == {"fakezip_readdir", "fakezip_stat"}
 FsBadArgs     == {"noarg", "badjson", "notobject", "nocmd", "nopath", "unknowncmd", "stat_missing", "readdir_missing",
@@ -53,7 +59,7 @@ NIndexArgs == {"nindex:" \o a : a \in NumClasses}                    \* stream_b
 TargetVerbs == {"stop", "stream_change_window", "stream_binary_search", "stream_search"}
 
 FileModeOf(arg) == CASE arg = "ok_nocollect" -> "nocollect" [] arg \in OnePassOpenArgs -> "onepass" [] OTHER -> "all"
-HasPlugin(arg) == arg \in {"ok_plugins", "ok_plugins_dup"}
+HasPlugin(arg) == arg \in {"ok_plugins", "ok_plugins_dup", "ok_ft", "ok_ft_nosave", "ok_ft_auto"}
 Both == {"ok", "err"}
 
 (* file: "none" | "all" | "nocollect" | "onepass";  plug: a plugin with commands is active;  res: a resume was
@@ -79,7 +85,7 @@ Pol(verb, arg, tk, file, plug, res, tlive, top) ==
                  ELSE {"err"})
          ELSE (IF arg \in (SearchOkArgs \cup NStartArgs \cup NMaxArgs) THEN (IF top THEN Both ELSE {"ok"})         \* one-pass: rejecting is the code's own todo
                ELSE {"err"})                                                      \* incl. "noarg": the statement requires err:
-    [] verb = "plugin_cmd" -> IF file # "none" /\ plug /\ arg = "ft_cmd" THEN {"ok"} ELSE {"err"}
+    [] verb = "plugin_cmd" -> IF file # "none" /\ plug /\ arg \in PluginCmdOkArgs THEN {"ok"} ELSE {"err"}
     [] verb = "fs" -> IF arg \in FsOkArgs THEN {"ok"} ELSE IF arg \in FsFakeArgs THEN Both ELSE {"err"}
     [] OTHER -> {"unknown"}
 =============================================================================
